@@ -215,6 +215,9 @@ fn header_with(id: u64, garbage: [u64; 3]) -> Header {
     h.length = garbage[0];
     h.query_length = garbage[1];
     h.body_length = garbage[2];
+    // a reused header may already name another body format: the bulk writers frame a
+    // BEVE body, whatever the caller's header said before
+    h.body_format = [0u16, 1, 2, 3, 4, 0xFFFF][(garbage[0] ^ garbage[1] ^ garbage[2]) as usize % 6];
     h
 }
 
@@ -724,6 +727,37 @@ where
                 f.shape % 7,
                 f.n
             );
+        }
+    }
+    // A correct typed array of T under another body-format label is rejected too, on
+    // the owned and the borrowed dispatch path of both slice routes.
+    let xs: Vec<T> = (0..(f.n % 5 + 1) as u128).map(|i| T::from_raw(T::special(i as u64) ^ f.seed as u128)).collect();
+    let good = Message::builder().body_typed_slice(&xs).build().body;
+    for label in [0u16, 2, 3, 4, 0xFFFF] {
+        for path in ["/s", "/r"] {
+            let req = Message::builder()
+                .id(2)
+                .query_str(path)
+                .query_format(QueryFormat::JsonPointer)
+                .body_bytes(good.clone())
+                .body_format_code(label)
+                .build();
+            let wire = req.to_vec();
+            for view in [false, true] {
+                let h = router.get(path).unwrap();
+                let r = if view {
+                    h.handle_view(&MessageView::from_slice(&wire).unwrap(), &CallContext::detached(path))
+                } else {
+                    h.handle(&req)
+                };
+                let accepted = matches!(&r, Ok(m) if m.header.ec == 0);
+                ensure!(
+                    !accepted,
+                    "wrong-format-accepted-by-route",
+                    "{}: route {path} (view={view}) accepted a typed array labelled body_format {label:#x}",
+                    T::NAME
+                );
+            }
         }
     }
     Ok(CaseInfo::new(f.n % 64 == 0 || f.n == 0)
